@@ -234,10 +234,14 @@ def run(prop, tier, seed):
     return r
 
 
-# C13 has no searcher of its own (undefined behaviour cannot be executed safely).  Its bounded stand-in checks the
-# PRECONDITION of the unchecked accesses instead: every digraph produced by the safe API is well-formed (no arc to a
-# non-vertex, no self-loop, order consistent), which is what the searches of C01 / C14 / C16 establish on their inputs.
-STANDIN_ALIASES = {"C13": ["C01", "C14", "C16"]}
+# C13's bounded stand-in has two parts.  (1) Its own search (replay/src/search/c_safe.rs): every vertex-taking query of
+# every representation called with ids that are NOT vertices (order, order+1, far-out ids, gaps of a non-contiguous
+# AdjacencyMap); the answer must be a panic or the neutral answer and the digraph unchanged.  That search runs in the `c13`
+# cargo profile (graaf compiled WITH debug assertions, so std's unsafe-precondition checks abort on an out-of-bounds
+# get_unchecked / ptr::add); a process killed by a signal is reported with the input that was running.  (2) The
+# PRECONDITION of the unchecked accesses: every digraph produced by the safe API is well-formed (no arc to a non-vertex,
+# no self-loop, order consistent), which is what the searches of C01 / C14 / C16 establish on their inputs.
+STANDIN_ALIASES = {"C13": ["C13", "C01", "C14", "C16"]}
 
 
 def search(prop, seed, failures, tier="quick"):
@@ -245,7 +249,7 @@ def search(prop, seed, failures, tier="quick"):
         total = 0
         last = {"input": None, "evaluated": 0, "note": ""}
         for q in STANDIN_ALIASES[prop]:
-            r = _search(q, seed, failures, tier)
+            r = _search(q, seed, failures, tier, profile="c13" if q == "C13" else "release")
             total += r.get("evaluated", 0)
             if r.get("input") is not None or r.get("error"):
                 r["evaluated"] = total
@@ -258,9 +262,9 @@ def search(prop, seed, failures, tier="quick"):
     return _search(prop, seed, failures, tier)
 
 
-def _search(prop, seed, failures, tier="quick"):
+def _search(prop, seed, failures, tier="quick", profile="release"):
     """concrete-input searcher against the real crate (replay/): returns {'input': ..} or {'input': None}"""
-    exe = os.path.join(VERIF, "build", "replay-target", "release", "search")
+    exe = os.path.join(VERIF, "build", "replay-target", profile, "search")
     rdir = os.path.join(VERIF, "replay")
     env = dict(os.environ)
     env["CARGO_NET_OFFLINE"] = "true"
@@ -276,12 +280,12 @@ def _search(prop, seed, failures, tier="quick"):
             c = open(os.path.join(alt, ".cargo", "config.toml")).read().replace("/verif/build/replay-target", alt_target)
             open(os.path.join(alt, ".cargo", "config.toml"), "w").write(c)
             rdir = alt
-            exe = os.path.join(alt_target, "release", "search")
+            exe = os.path.join(alt_target, profile, "search")
         try:
             shutil.copy(os.path.join(REPO, "Cargo.lock"), os.path.join(rdir, "Cargo.lock"))
         except Exception:
             pass
-        b = subprocess.run(["cargo", "build", "--release", "--bin", "search"], cwd=rdir, env=env, capture_output=True, text=True, timeout=600)
+        b = subprocess.run(["cargo", "build", "--profile", profile, "--bin", "search"], cwd=rdir, env=env, capture_output=True, text=True, timeout=600)
         if b.returncode != 0:
             return {"input": None, "note": "searcher did not build: " + b.stderr[-800:]}
         env2 = dict(os.environ)
@@ -297,8 +301,24 @@ def _search(prop, seed, failures, tier="quick"):
             ks = [1, 2, 3, 5, 16] if tier == "quick" else list(range(1, 17))
             ks = sorted(set(min(k, ncpu) for k in ks))
             runs = [(["taskset", "-c", "0-%d" % (k - 1)] if k > 1 else ["taskset", "-c", "0"], seed) for k in ks]
+        trace = os.path.join(VERIF, "build", "run-%d" % os.getpid(), "search-trace-%s.json" % prop)
+        os.makedirs(os.path.dirname(trace), exist_ok=True)
+        if os.path.exists(trace):
+            os.remove(trace)
+        if prop == "C13":
+            env2["SEARCH_TRACE_FILE"] = trace
         for pre, sd in runs:
             p = subprocess.run(pre + [exe, prop, str(sd)], capture_output=True, text=True, timeout=300, env=env2)
+            if prop == "C13" and p.returncode < 0 and os.path.exists(trace):
+                # the searcher was killed by a signal (SIGSEGV / SIGABRT / SIGBUS ...) while a call of the safe API was running
+                try:
+                    inp = json.load(open(trace))
+                except Exception:
+                    inp = {"property": prop}
+                inp["check"] = "every call of the safe API on this input returns or panics (unwinding)"
+                inp["expected"] = "returns or panics"
+                inp["actual"] = "the process was terminated by signal %d during this case: %s" % (-p.returncode, p.stderr.strip()[-300:])
+                return {"input": inp, "evaluated": total, "note": "the searcher process died while evaluating this input (profile %s: graaf compiled with debug assertions)" % profile}
             mm = re.search(r"evaluated=(\d+)", p.stdout)
             total += int(mm.group(1)) if mm else 0
             if "FOUND " in p.stdout or "NONE" not in p.stdout:
@@ -322,7 +342,14 @@ def replay(prop, path):
     if d.get("failing_input") is None:
         print("no failing input recorded (the verifier gave no counterexample); the failed obligations and verifier output are in the file")
         return 0
-    exe = os.path.join(VERIF, "build", "replay-target", "release", "search")
-    p = subprocess.run([exe, prop, "--replay", json.dumps(d["failing_input"])], capture_output=True, text=True)
+    q = d["failing_input"].get("property", prop)   # a stand-in alias (C13 via the C01 / C14 / C16 searches) replays under its own search
+    prof = "c13" if q == "C13" else "release"
+    exe = os.path.join(VERIF, "build", "replay-target", prof, "search")
+    if not os.path.exists(exe):
+        subprocess.run(["cargo", "build", "--profile", prof, "--bin", "search"], cwd=os.path.join(VERIF, "replay"), capture_output=True, text=True)
+    p = subprocess.run([exe, q, "--replay", json.dumps(d["failing_input"])], capture_output=True, text=True)
     print(p.stdout)
+    if p.returncode < 0:
+        print("the replay process was terminated by signal %d: %s" % (-p.returncode, p.stderr.strip()[-300:]))
+        return 1
     return 1 if "FOUND" in p.stdout else 0
